@@ -254,14 +254,14 @@ func (l *commitLog) AppendMessageSet(ms []byte) ([]int64, error) {
 }
 
 func (l *commitLog) append(segment *segment, ms []byte, entries []*entry) ([]int64, error) {
-	if err := segment.WriteMessageSet(ms, entries); err != nil {
-		return nil, err
-	}
-	crashPoint("log.append.written")
 	var (
 		lastLeaderEpoch = l.leaderEpochCache.LastLeaderEpoch()
 		offsets         = make([]int64, len(entries))
 	)
+	// Record new leader epochs before writing the messages. If the process
+	// dies in between, the leader epoch checkpoint is ahead of the log, which
+	// is repaired when the log is opened. The other way round the messages
+	// would be in the log without their leader epoch.
 	for i, entry := range entries {
 		// Check if message is in a new leader epoch.
 		if entry.LeaderEpoch > lastLeaderEpoch {
@@ -273,6 +273,10 @@ func (l *commitLog) append(segment *segment, ms []byte, entries []*entry) ([]int
 		}
 		offsets[i] = entry.Offset
 	}
+	if err := segment.WriteMessageSet(ms, entries); err != nil {
+		return nil, err
+	}
+	crashPoint("log.append.written")
 	crashPoint("log.append.done")
 	return offsets, nil
 }
